@@ -20,6 +20,8 @@ type knowledge struct {
 	cDCID   protocol.ConnectionID // destination connection ID the client currently uses
 	sSCID   protocol.ConnectionID // source connection ID of the server's latest long-header packet
 	hasS    bool
+	iniCID  protocol.ConnectionID // the connection ID the client's Initial keys are derived from (its first destination ID; after a Retry the Retry's source ID)
+	hasIni  bool
 	ok      bool
 	toSrv   bool // the packet is for the server: the roles of the IDs are swapped and it is sealed as a client would
 }
@@ -109,7 +111,8 @@ func craftVN(k knowledge, r *vh.Rand, list string) []byte {
 }
 
 // craftLong builds an Initial or Handshake packet from the "server". keys: valid (Initial keys derived from
-// the client's current destination connection ID - what an on-path observer can compute), garbage (keys
+// the destination connection ID of the client's first Initial, after a Retry of its first Initial after the Retry -
+// what an on-path observer can compute), garbage (keys
 // derived from a random connection ID: the client cannot open it). payload: close | ping.
 func craftLong(k knowledge, r *vh.Rand, typ protocol.PacketType, scid, keys, payload, ver string) []byte {
 	v := k.version
@@ -117,6 +120,10 @@ func craftLong(k knowledge, r *vh.Rand, typ protocol.PacketType, scid, keys, pay
 		v = otherVersion(v)
 	}
 	keyCID := k.cDCID
+	if k.hasIni {
+		// the client answers the server's first packet by switching its destination ID; the Initial keys stay
+		keyCID = k.iniCID
+	}
 	if keys != "valid" {
 		keyCID = randCID(r, 8)
 	}
